@@ -675,3 +675,33 @@ theorem exp_sub_log_range (x : List ℝ) {a : ℝ} (h : a ∈ x) :
 end Real
 
 end Conf
+
+/-! ### definedness of the transformer branch (used by C06.alto_confidence_total) -/
+
+namespace Conf
+variable {R : Type}
+
+theorem option_mapM_defined {α β : Type} {f : α → Option β} {l : List α}
+    (h : ∀ x ∈ l, ∃ y, f x = some y) : ∃ r, l.mapM f = some r := by
+  induction l with
+  | nil => exact ⟨[], by simp⟩
+  | cons a l ih =>
+    obtain ⟨b, hb⟩ := h a List.mem_cons_self
+    obtain ⟨bs, hbs⟩ := ih fun x hx => h x (List.mem_cons_of_mem _ hx)
+    exact ⟨b :: bs, by rw [option_mapM_cons, hb, hbs]⟩
+
+/-- one frame per label, rows of length `C`, labels `< C`: every `probs[i][labels[i]]` exists -/
+theorem transformer_definedL {C : ℕ} {probs : List (List R)} {labels : List Nat}
+    (hrow : ∀ row ∈ probs, row.length = C) (hlen : probs.length = labels.length)
+    (hlab : ∀ l ∈ labels, l < C) : ∃ cs, lineConfidenceTransformer probs labels = some cs := by
+  unfold lineConfidenceTransformer
+  apply option_mapM_defined
+  intro i hi
+  have hi' : i < labels.length := List.mem_range.1 hi
+  have hp : i < probs.length := by omega
+  have hl := hlab labels[i] (List.getElem_mem hi')
+  have hr := hrow probs[i] (List.getElem_mem hp)
+  rw [List.getElem?_eq_getElem hp, List.getElem?_eq_getElem hi']
+  exact ⟨(probs[i])[labels[i]]'(by omega), by simp [List.getElem?_eq_getElem (show labels[i] < probs[i].length by omega)]⟩
+
+end Conf
